@@ -261,6 +261,7 @@ func reifyStruct(opts *options, orig reflect.Value, cfg *Config) Error {
 		tryInitDefaults(to)
 		numField := to.NumField()
 		for i := 0; i < numField; i++ {
+			opts.activeFields = newFieldSet(parentFields)
 			fInfo, skip, err := accessField(to, i, opts)
 			if err != nil {
 				return err
@@ -593,10 +594,14 @@ func reifyDoArray(
 	val value,
 	arr []value,
 ) (reflect.Value, Error) {
+	parentFields := opts.opts.activeFields
+	defer func() { opts.opts.activeFields = parentFields }()
+
 	aLen := len(arr)
 	tLen := to.Len()
 	for idx := 0; idx < tLen; idx++ {
 		if idx >= start && idx < start+aLen {
+			opts.opts.activeFields = newFieldSet(parentFields)
 			v, err := reifyMergeValue(opts, to.Index(idx), arr[idx-start])
 			if err != nil {
 				return reflect.Value{}, err
